@@ -163,6 +163,91 @@ theorem reloader_calls_applied (cfg : Cfg) (force : Bool) (now : Int) (jit : Int
   · subst hc; simp [h, callsOf, callsEtag, hl, hs, reloaderApplyCalls, reloaderApplyCall, cEtag, cLoad, registerError]
   · subst hd; simp [h, callsOf, callsEtag, hl, hs, reloaderApplyCalls, reloaderApplyCall, cEtag, cLoad, cSet, publish]
 
+/-- **the state-creating statements of `__init__` = `init`**: whatever the fields were, afterwards they represent the model's
+    initial state for the priming the constructor did (`primeOf`: none with `initial_load`, none without a sync `etag`, else the
+    outcome of the one sync `etag()` call — a str is recorded, anything else and every exception give None); `etag()` has been
+    called exactly when the model counts it -/
+theorem reloader_init (N : Num Int) (hN : UsReading N) (cfg : Cfg) (initialLoad syncEtag : Bool) (eo : Except String PyVal)
+    (st0 : Src.reloader_State Int) (tr : List (Call Doc)) (policy0 : Doc) :
+    let r := Src.reloader_init N cfg.backoffMin initialLoad syncEtag eo st0 tr
+    let p := primeOf initialLoad syncEtag eo
+    ReloaderSim (init cfg p policy0) r.st ∧ r.out = .returned .none ∧
+      r.calls = tr ++ (match p with | .called _ => [cEtag] | .skipped => []) ∧
+      (init cfg p policy0).etagCalls = (match p with | .called _ => 1 | .skipped => 0) ∧
+      r.st.last_reload_at = none ∧ r.st.last_error = none := by
+  simp only [Src.reloader_init, hN.lit_zero, isStr_ite]
+  cases initialLoad <;> cases syncEtag <;> cases eo <;>
+    simp [primeOf, init, Prime.tag, etagRes, reloaderSim_iff, tagVal, cEtag]
+  rename_i v
+  cases v <;> simp [obsOfVal, EtagObs.toOpt]
+
+/-! ### histories of non-overlapping translated checks -/
+
+/-- an event of a history of the translated reloader: the clock moves on, or one whole check with its draw and the outcomes of its
+    collaborator calls (`set_policy` returns) -/
+inductive TEvent where
+  | advance (dt : Nat)
+  | check (force : Bool) (u : Int) (eo : Except String PyVal) (lo : Except String Doc)
+
+/-- the model event a translated event is -/
+def TEvent.toModel (N : Num Int) (ratio : Int) : TEvent → Event
+  | .advance dt => .advance dt
+  | .check force u eo lo => .check force (jitOf N ratio u) (etagRes eo) (loadRes lo)
+
+structure THist where
+  now : Int
+  st : Src.reloader_State Int
+  tr : List (Call Doc)
+
+/-- run the TRANSLATED `check_and_reload_async` over a history, every check on the fields and the trace the previous one left -/
+def trun (N : Num Int) (cfg : Cfg) (ratio : Int) : THist → List TEvent → THist
+  | h, [] => h
+  | h, .advance dt :: evs => trun N cfg ratio { h with now := h.now + dt } evs
+  | h, .check force u eo lo :: evs =>
+    let r := Src.reloader_check N cfg.backoffMin cfg.backoffMax ratio h.now u eo lo (.ok ()) h.st h.tr force
+    trun N cfg ratio { h with st := r.st, tr := r.calls } evs
+
+/-- **histories**: running the translated method over any history of clock advances and checks keeps the fields in step with the
+    model's `run`, and the collaborator calls made are exactly the ones the model predicts, check by check -/
+theorem reloader_history (N : Num Int) (hN : UsReading N) (cfg : Cfg) (ratio : Int) (evs : List TEvent) :
+    ∀ (h : THist) (s : RState), ReloaderSim s h.st →
+      let m := run cfg ⟨h.now, s⟩ (evs.map (TEvent.toModel N ratio))
+      let t := trun N cfg ratio h evs
+      ReloaderSim m.rs t.st ∧ t.now = m.now ∧
+        t.tr = h.tr ++ callsAlong cfg ⟨h.now, s⟩ (evs.map (TEvent.toModel N ratio)) := by
+  induction evs with
+  | nil => intro h s hs; exact ⟨hs, rfl, by simp [trun, callsAlong]⟩
+  | cons ev evs ih =>
+    intro h s hs
+    cases ev with
+    | advance dt =>
+      have := ih { h with now := h.now + dt } s hs
+      simpa [trun, run, stepEvent, TEvent.toModel, callsAlong] using this
+    | check force u eo lo =>
+      obtain ⟨hsim, _, hcalls, _⟩ := reloader_check N hN cfg ratio u h.now force eo lo s h.st hs h.tr
+      have := ih { h with st := (Src.reloader_check N cfg.backoffMin cfg.backoffMax ratio h.now u eo lo (.ok ()) h.st h.tr force).st,
+                          tr := (Src.reloader_check N cfg.backoffMin cfg.backoffMax ratio h.now u eo lo (.ok ()) h.st h.tr force).calls }
+        (check cfg force h.now (jitOf N ratio u) (etagRes eo) (loadRes lo) s).1 hsim
+      obtain ⟨h1, h2, h3⟩ := this
+      refine ⟨by simpa [trun, run, stepEvent, TEvent.toModel] using h1, by simpa [trun, run, stepEvent, TEvent.toModel] using h2, ?_⟩
+      simp only [trun, List.map_cons, TEvent.toModel, callsAlong, stepEvent]
+      rw [h3, hcalls, List.append_assoc]
+
+/-- along every history the documents the translated reloader hands to `Guard.set_policy` are exactly the documents its own successful
+    `load()`s returned, in order; the model's active policy is the last of them (the initial one if there is none) — cf.
+    `c10_policy_is_loaded`, `c10_sequential_latest` -/
+theorem reloader_history_installs (N : Num Int) (hN : UsReading N) (cfg : Cfg) (ratio : Int) (evs : List TEvent)
+    (h : THist) (s : RState) (hs : ReloaderSim s h.st) :
+    let m := run cfg ⟨h.now, s⟩ (evs.map (TEvent.toModel N ratio))
+    let t := trun N cfg ratio h evs
+    ∃ new, t.tr = h.tr ++ new ∧ new.filterMap setArg = loadedDocs cfg ⟨h.now, s⟩ (evs.map (TEvent.toModel N ratio)) ∧
+      m.rs.enginePolicy = ((new.filterMap setArg).getLast?).getD s.enginePolicy := by
+  intro m t
+  obtain ⟨_, _, h3⟩ := reloader_history N hN cfg ratio evs h s hs
+  refine ⟨_, h3, setArg_callsAlong cfg _ _, ?_⟩
+  rw [setArg_callsAlong]
+  exact run_policy cfg _ ⟨h.now, s⟩
+
 /-! ### the C10 clauses, re-derived for the translated source -/
 
 /-- whatever the source and the guard do — every returned value, every raised class, `set_policy` raising included — the translated
@@ -263,6 +348,9 @@ end Rbacx.Translated
 
 #print axioms Rbacx.Translated.reloader_register_error
 #print axioms Rbacx.Translated.reloader_check
+#print axioms Rbacx.Translated.reloader_init
+#print axioms Rbacx.Translated.reloader_history
+#print axioms Rbacx.Translated.reloader_history_installs
 #print axioms Rbacx.Translated.reloader_check_set_policy_raises
 #print axioms Rbacx.Translated.reloader_check_set_policy_unreached
 #print axioms Rbacx.Translated.reloader_calls_applied
